@@ -29,6 +29,8 @@ def add(*a, **k):
 
 def all_units():
     if not _units:
+        import units_bn_low
+        units_bn_low.register(add)
         import units_bn_api
         units_bn_api.register(add)
     return list(_units)
